@@ -1454,7 +1454,22 @@ func (w *wnWorld) oracleC17() {
 				}
 				w.r.Count("probe_c17_bit_checked")
 				if _, ok := d.Data[order[i]]; !ok {
-					w.r.Violate("overclaim", "file %d (local=%v cached=%v deleted=%v): own availability record marks data chunk %d (%s) present but it is not stored", f.id, f.local, f.cached, f.deleted, i, order[i][:8])
+					cls := "overclaim"
+					if f.local && f.upEpoch == w.epoch {
+						// known family (see C16): the upload ran concurrently with the API
+						// deletion of another file holding this chunk; the upload registers
+						// its chunks with the reference counting only after storing them
+						for _, g := range w.sortedFiles() {
+							if ep, ok := w.delEpoch[g.id]; ok && ep == w.epoch && g != f {
+								for _, c := range g.chunks {
+									if c == order[i] {
+										cls = "overclaim@upload-raced-removal"
+									}
+								}
+							}
+						}
+					}
+					w.r.Violate(cls, "file %d (local=%v cached=%v deleted=%v): own availability record marks data chunk %d (%s) present but it is not stored", f.id, f.local, f.cached, f.deleted, i, order[i][:8])
 				}
 			}
 			if all && rec.Bit.Len > 0 {
